@@ -24,6 +24,7 @@ ToSet(s) == {s[i] : i \in 1..Len(s)}
 \* the trees are used as deserialised (a constant TLC evaluates once)
 TreesC == TreesJ
 SubsC == {"s1", "s2", "s3"}
+LisC == {"r1", "r2", "p1"}
 
 Log == ndJsonDeserialize(IOEnv.TRACE)
 N == Len(Log)
@@ -45,8 +46,11 @@ TReset ==
     /\ dur' = [blk |-> blk', sta |-> sta', best |-> best', led |-> led']
     /\ subs' = [s \in Subs |-> 0]
     /\ notif' = 0 /\ seen' = {1}
+    /\ lis' = [x \in Lis |-> -1]
     /\ act' = [op |-> "Init"]
 
+TSub      == Step("Sub")      /\ Subscribe(Ev.s)
+TUnsub    == Step("Unsub")    /\ Unsubscribe(Ev.s)
 TSubmit   == Step("Submit")   /\ Submit(Ev.batch)
 TSubmitV  == Step("SubmitV")  /\ SubmitValidated(Ev.batch) /\ \A i \in 1..Len(Ev.batch) : Cls(Ev.batch[i]) = "ok" /\ H(Ev.batch[i]) > ReqH
 TRevert   == Step("Revert")   /\ mem = Ev.b /\ RevertStep
@@ -74,6 +78,7 @@ TDone ==
     /\ led.fc = TripleSet(Ev.fc)
     /\ led.exp = ExpOf(Ev.exp)
     /\ notif = Ev.notif
+    /\ lis = Ev.lis                \* every registered callback's count, every unregistered one silent
     /\ Ev.stateOk
     /\ UNCHANGED vars
 
@@ -116,7 +121,7 @@ TBlks == /\ Step("Blks") /\ pc.k = "idle"
          /\ UNCHANGED vars
 
 TraceNext ==
-    \/ TReset \/ TSubmit \/ TSubmitV \/ THist \/ THdrs \/ TBlks \/ TRevert \/ TApply \/ TMidFlush \/ TFinish \/ TFail \/ TPanic
+    \/ TReset \/ TSub \/ TUnsub \/ TSubmit \/ TSubmitV \/ THist \/ THdrs \/ TBlks \/ TRevert \/ TApply \/ TMidFlush \/ TFinish \/ TFail \/ TPanic
     \/ TPrune \/ TCrash \/ TDoneLite \/ TState \/ TDone \/ TReopened \/ TPoll \/ TMinReorg
 
 TraceSpec == TraceInit /\ [][TraceNext]_tvars
